@@ -104,8 +104,13 @@ def parse_def(kind, node):
     return m.parse.argparse_ast(node)
 
 
-def def_source(kind, ir, name, function_type="static"):
-    return ast.unparse(emit_def(kind, ir, name, function_type))
+def def_source(kind, ir, name, function_type="static", receiver=None):
+    node = emit_def(kind, ir, name, function_type)
+    if receiver == "posonly" and kind == "function" and function_type != "static" and node.args.args \
+            and node.args.args[0].arg in ("self", "cls"):
+        # the receiver declared positional-only: `def method(self, /, a, b)`
+        node.args.posonlyargs = list(node.args.posonlyargs) + [node.args.args.pop(0)]
+    return ast.unparse(node)
 
 
 # ------------------------------------------------------------------ surroundings
@@ -122,6 +127,13 @@ HELPERS = [
     "square = lambda v, /, p=2: v ** p",
     "class Point:\n    __slots__ = ('x', 'y')\n\n    def __init__(self, x, y, /):\n        self.x, self.y = x, y",
     "try:\n    import json\nexcept ImportError:\n    json = None",
+    # multi-line string constants that are NOT docstrings (templates, banners, fixtures pasted into a module), with
+    # lines made only of spaces / tabs, trailing blanks and a first line indented deeper than the rest: their values are data
+    'TEMPLATE = """[section]\nname = {name}\n    \n[other]\n  \t\nvalue = {value}\n"""',
+    "BANNER = \'\'\'usage:\n        \n  tool [options]   \n\t\n\'\'\'",
+    'def usage(prog):\n    text = """\n        %s [options]\n    \n      --help   show this\n\t\n    """\n    return text % prog',
+    'class Texts(object):\n    GREETING = """hello\n  \n world\n"""\n\n    def greet(self):\n        return self.GREETING + """\n \n"""',
+    'FIXTURE = ("""a,b\n \n1,2\n""", """\t\n""")',
 ]
 
 
@@ -135,17 +147,48 @@ def indent_block(src, n=4):
     return "\n".join((pad + l if l.strip() else l) for l in src.split("\n"))
 
 
+NESTED_FORMS = ["except-import-error", "except-import-error-as", "except-two-handlers"]
+# forms that the unchanged tree gets wrong (the nested definition is rewritten instead of the named one: reported as a
+# finding, kept out of the generator): "if-branch", "else-branch", "try-body", "with-body"
+NESTED_FORMS_ALL = NESTED_FORMS + ["if-branch", "else-branch", "try-body", "with-body"]
+
+
+def nested_same_named(kind, short, form):
+    """a compound statement that conditionally defines a stand-in of the same simple name as the target (the usual
+    `try: from generated import X / except ImportError: <stub X>` fallback and its relatives): the named definition
+    proper is the one at the target's own location, not this one"""
+    if kind == "class":
+        stub = 'class %s(object):\n    """Stand-in used when the generated one cannot be imported."""\n\n    stand_in: int = 0' % short
+    else:
+        stub = 'def %s(*args, **kwargs):\n    """Stand-in used when the generated one cannot be imported."""\n    raise NotImplementedError()' % short
+    stub = indent_block(stub)
+    imp = "    from generated_%s import %s" % (short.lower(), short)
+    return {
+        "except-import-error": "try:\n%s\nexcept ImportError:\n%s" % (imp, stub),
+        "except-import-error-as": "try:\n%s\nexcept ImportError as import_error:\n%s" % (imp, stub),
+        "except-two-handlers": "try:\n%s\nexcept ImportError:\n%s\nexcept Exception as other_error:\n    raise" % (imp, stub),
+        "if-branch": "if not hasattr(__builtins__, 'generated_%s'):\n%s" % (short.lower(), stub),
+        "else-branch": "if hasattr(__builtins__, 'generated_%s'):\n    pass\nelse:\n%s" % (short.lower(), stub),
+        "try-body": "try:\n%s\nexcept NameError:\n    pass" % stub,
+        "with-body": "import contextlib\n\nwith contextlib.suppress(NameError):\n%s" % stub,
+    }[form]
+
+
 def assemble_target(rng, kind, name, def_src, sur, position, trailing_newline, class_members=None, ending=None,
-                    module_doc=False, same_named_top=False, same_named_after=False):
+                    module_doc=False, same_named_top=False, same_named_after=False, nested=None):
     """module text with `def_src` (None = absent) placed among `sur`.  For dotted names ('C.meth', 'Outer.K'):
     the definition lives inside the enclosing class together with `class_members`; with same_named_top a module-level
-    statement of the same simple name is put before the enclosing class."""
+    statement of the same simple name is put before the enclosing class.  `nested` (a NESTED_FORMS name): a compound
+    statement holding a stand-in definition of the same simple name comes first in the scope of the definition."""
     chunks = list(sur)
     if "." in name:
         cls, short = name.split(".")[0], name.split(".")[-1]
         members = list(class_members or [])
         if def_src is not None:
             idx = {"before": 0, "after": len(members)}.get(position, len(members) // 2)
+            if nested:
+                members.insert(idx, nested_same_named(kind, short, nested))
+                idx += 1
             members.insert(idx, def_src)
             if same_named_after:
                 members.insert(idx + 1, "%s = register(%s)" % (short, short))
@@ -159,6 +202,9 @@ def assemble_target(rng, kind, name, def_src, sur, position, trailing_newline, c
             chunks.insert(0, rng.choice(["class %s(object):\n    marker = 1" % short, "%s = None" % short]))
     elif def_src is not None:
         idx = {"before": 0, "after": len(chunks)}.get(position, len(chunks) // 2)
+        if nested:
+            chunks.insert(idx, nested_same_named(kind, name, nested))
+            idx += 1
         chunks.insert(idx, def_src)
         if same_named_after:
             # a later statement of the same scope that rebinds the name (registration / decoration by hand)
@@ -185,6 +231,13 @@ BODIES = [
     ["print({p0})", "return"],
     ["if {p0}:\n    return", "print({p1})", "return"],
     ["total = {p0}", "print(total)", "return"],
+    # local declarations: annotated assignments, bare annotations, augmented assignments, nested definitions, with /
+    # try / while / assert / del / global statements - none of them interface, all of them carried
+    ["totals: dict = {{}}", "count: int = 0", "label: str", "label = str({p0})", "totals[label] = count", "print(totals, {p1})"],
+    ["seen: list = []", "seen += [{p0}]", "assert seen, 'nothing seen'", "del seen[0]", "print({p1})"],
+    ["def inner(value):\n    return (value, {p0})", "pair: tuple = inner({p1})", "print(pair)"],
+    ["with open(__file__) as handle:\n    first: str = handle.readline()", "try:\n    print(first, {p0})\nexcept ValueError as error:\n    print(error)\nfinally:\n    print({p1})"],
+    ["global LAST_RUN", "LAST_RUN = {p0}", "while False:\n    break", "ratio: float", "print(LAST_RUN, {p1})", "return"],
 ]
 
 
@@ -209,7 +262,12 @@ def gen_scenario(rng, via="api", runs=2, allow_known=True):
         targets[k] = {"pre": pre, "stale_tmp": rng.random() < 0.08, "same_named_after": rng.random() < 0.2, "n_sur": rng.randint(0, 4), "position": rng.choice(["before", "between", "after"]),
                       "trailing_newline": True, "ending": rng.choice(ENDINGS), "sur_seed": rng.randint(0, 10 ** 9),
                       "members": rng.randint(0, 2), "module_doc": rng.random() < 0.25,
-                      "same_named_top": rng.random() < 0.5}
+                      "same_named_top": rng.random() < 0.5,
+                      # a stand-in of the same simple name defined conditionally (fallback of a failed import) before the
+                      # definition proper
+                      "nested": rng.choice(NESTED_FORMS) if rng.random() < 0.15 else None,
+                      # a method target whose receiver is declared positional-only: def m(self, /, ...)
+                      "receiver": "posonly" if rng.random() < 0.25 else None}
     if targets and rng.random() < 0.08:
         # the file holding the truth is ALSO named as the file of another kind: it must still never be modified
         targets[rng.choice(sorted(targets))]["alias_truth"] = True
@@ -226,7 +284,9 @@ def gen_scenario(rng, via="api", runs=2, allow_known=True):
             "with_returns": truth in ("argparse_function", "class") and rng.random() < 0.5,
             "wide": rng.randint(74, 110) if rng.random() < 0.45 else None,
             # after the regular runs: the truth is edited (its modification time kept) and sync runs once more
-            "truth_edit": rng.random() < 0.25}
+            "truth_edit": rng.random() < 0.25,
+            # a method truth whose receiver is declared positional-only: def m(self, /, ...)
+            "receiver": "posonly" if rng.random() < 0.3 else None}
 
 
 def build_project(scn, root):
@@ -272,7 +332,7 @@ def build_project(scn, root):
             if pre == "absent":
                 dsrc = None
             elif pre == "stale":
-                dsrc = def_source(k, stale, short, ftype if k == "function" else "static")
+                dsrc = def_source(k, stale, short, ftype if k == "function" else "static", t.get("receiver"))
             elif pre == "stale-tail" and k == "class":
                 node = emit_def(k, gold_ir if gold_ir is not None else ir, short)
                 first = 1 if ast.get_docstring(node) is not None else 0
@@ -282,11 +342,12 @@ def build_project(scn, root):
                     node.body.append(ast.parse("extra_attribute: int = 7").body[0])
                 dsrc = ast.unparse(node)
             else:
-                dsrc = def_source(k, gold_ir if gold_ir is not None else ir, short, ftype if k == "function" else "static")
+                dsrc = def_source(k, gold_ir if gold_ir is not None else ir, short, ftype if k == "function" else "static",
+                                  t.get("receiver"))
             text = assemble_target(srng, k, name, dsrc, sur, t["position"], t["trailing_newline"], members,
                                    ending=t.get("ending"), module_doc=t.get("module_doc", False),
                                    same_named_top=t.get("same_named_top", False),
-                                   same_named_after=t.get("same_named_after", False))
+                                   same_named_after=t.get("same_named_after", False), nested=t.get("nested"))
         with open(paths[tk], "w") as f:
             f.write(text)
     return {"paths": paths, "ir": ir, "stale": stale, "gold_ir": gold_ir, "ftype": ftype}
@@ -297,7 +358,7 @@ def write_truth(scn, ir, path, ftype, keep_mtime=False):
     import random
     truth, names = scn["truth"], scn["names"]
     tname = names[truth].split(".")[-1]
-    tsrc = def_source(truth, ir, tname, ftype)
+    tsrc = def_source(truth, ir, tname, ftype, scn.get("receiver"))
     if scn.get("body") is not None and truth == "function":
         pn = list(ir["params"]) or ["None"]
         lines = [l.format(p0=pn[0], p1=pn[-1]) for l in BODIES[scn["body"]]]
